@@ -21,6 +21,8 @@ type c11EH struct {
 }
 
 func runC11(e *emitter, tier string, seed uint64) {
+	// overlapping renders that share the buffer pools (the concurrent phase of C14): exactness / all-or-nothing must not depend on what other requests do
+	defer runC14(e, tier, seed)
 	errKinds := map[string]error{
 		"plain":      errors.New("boom"),
 		"canceled":   context.Canceled,
@@ -111,6 +113,16 @@ func runC11(e *emitter, tier string, seed uint64) {
 				}
 			}
 		}
+	}
+	// very large documents (beyond any buffer size a handler might cap at): 64 KiB chunks, failing after 1, 2.5 and 5 MiB
+	for _, kib := range []int{1088, 2560, 5120} {
+		ch := make([]string, kib/64)
+		for i := range ch {
+			ch[i] = strings.Repeat(string(rune('a'+i%26)), 64<<10)
+		}
+		run(201, cts[1], nil, false, ch, true, "plain")
+		run(0, cts[0], ehs[2], false, ch, true, "wrapped")
+		run(201, cts[0], nil, false, ch, false, "-")
 	}
 	// k chunks then fail, for every k up to a bound
 	maxK := 40
